@@ -42,10 +42,13 @@ def main():
     meta = json.load(open(f"{d}/meta.json"))
     patch = f"{d}/patch.diff"
     readme = open(f"{d}/demo/README.md").read()
-    m = re.search(r"(cargo test[^\n`]*--test[^\n`]*)", readme)
+    readme1 = re.sub(r"\\\s*\n\s*", " ", readme)  # join continuation lines
+    m = re.search(r"((?:[A-Z_]+=(?:\"[^\"]*\"|\S+)\s+)*cargo test[^\n`]*--test[^\n`]*)", readme1)
     if not m:
         print("no demo command in README"); return 2
-    democmd = "CARGO_NET_OFFLINE=true " + m.group(1).strip()
+    democmd = m.group(1).strip()
+    if "CARGO_NET_OFFLINE" not in democmd:
+        democmd = "CARGO_NET_OFFLINE=true " + democmd
     crate = re.search(r"-p\s+(\S+)", democmd).group(1)
     cratedir = [k for k, v in PKG.items() if v == crate][0]
     demos = [f for f in os.listdir(f"{d}/demo") if f.endswith(".rs")]
@@ -90,10 +93,25 @@ def main():
             for k, v in PKG.items():
                 if f.startswith(k + "/"):
                     pk.add(v)
-        cmd = "CARGO_NET_OFFLINE=true cargo test --offline --no-fail-fast " + " ".join("-p " + p for p in sorted(pk))
-        r = sh(cmd)
-        res = re.findall(r"test result: (\w+)\. (\d+) passed; (\d+) failed", r.stdout)
-        passed = sum(int(x[1]) for x in res); nfail = sum(int(x[2]) for x in res)
+        # lightning-storage-server/lib is a path dependency, not a workspace member: cargo only
+        # accepts it in a -p list of its own (together with a member that depends on it)
+        groups = [sorted(x for x in pk if x != "lightning-storage-server")]
+        if "lightning-storage-server" in pk:
+            groups.append(["lightning-storage-server", "vls-frontend"])
+        passed = nfail = rc = 0
+        cmds = []
+        out_all = ""
+        for g in groups:
+            cmd = "CARGO_NET_OFFLINE=true cargo test --offline --no-fail-fast " + " ".join("-p " + p for p in g)
+            cmds.append(cmd)
+            r = sh(cmd)
+            out_all += r.stdout
+            res = re.findall(r"test result: (\w+)\. (\d+) passed; (\d+) failed", r.stdout)
+            passed += sum(int(x[1]) for x in res); nfail += sum(int(x[2]) for x in res)
+            rc = rc or r.returncode
+        class R: pass
+        r = R(); r.returncode = rc; r.stdout = out_all
+        cmd = " && ".join(cmds)
         rec["existing_tests_cmd"] = cmd
         rec["existing_tests_with_change"] = f"{passed} passed, {nfail} failed, exit {r.returncode}"
         print("existing tests with change:", rec["existing_tests_with_change"], flush=True)
